@@ -362,6 +362,10 @@ pub fn gen_doc(r: &mut Rng, g: &GenCfg) -> (String, &'static str) {
     if r.chance(1, 10) {
         s = tabify(r, &s);
     }
+    if r.chance(1, 25) {
+        // a byte-order mark: skipped by the parser, counted in the columns of line 1
+        s.insert(0, '\u{feff}');
+    }
     line_endings(r, &s)
 }
 
@@ -666,7 +670,7 @@ fn link_tail_spans_lines(lines: &[&str], p: &Parsed, i: usize) -> bool {
 /// Every class is decided from the source text and the shape of the tree around the failing node
 /// (never from the positions' values alone), so that an unrelated regression on a plain document
 /// cannot be absorbed by a listed class.
-pub fn classify(md: &str, _o: &Opts, p: &Parsed, _clause: &str, kind: &str, sp: (usize, usize, usize, usize)) -> String {
+pub fn classify(md: &str, _o: &Opts, p: &Parsed, clause: &str, kind: &str, sp: (usize, usize, usize, usize)) -> String {
     let lines = src_lines(md);
     let idx = match find_node(p, kind, sp) {
         Some(i) => i,
@@ -907,6 +911,14 @@ pub fn classify(md: &str, _o: &Opts, p: &Parsed, _clause: &str, kind: &str, sp: 
                 let k = (t.sp.1 - 1).min(hl.len());
                 let same = rl.len() >= k && rl[..k] == hl[..k] && rl.get(k).map_or(false, |c| *c != b' ' && *c != b'\t');
                 if !same {
+                    // rows and their cells are placed from the same origin (the table's start column): a cell
+                    // that leaves its own row is not part of the listed shift
+                    let lead = |l: &[u8]| l.iter().take_while(|c| **c == b' ' || **c == b'\t' || **c == b'>').any(|c| *c == b'\t');
+                    let row_lead = rl.iter().take_while(|c| **c == b' ' || **c == b'\t' || **c == b'>').count();
+                    // (a row that starts left of its header does lose cells beyond its end on the pinned tree)
+                    if kind == "table_cell" && clause == "nested" && row_lead > k && !lead(hl) && !lead(rl) && !hl[..k].iter().any(|c| *c == b'\t') {
+                        return "table-row-prefix-differs-from-header:cell-outside-a-row-indented-more-than-its-header".to_string();
+                    }
                     return "table-row-prefix-differs-from-header".to_string();
                 }
             }
@@ -928,6 +940,10 @@ pub fn classify(md: &str, _o: &Opts, p: &Parsed, _clause: &str, kind: &str, sp: 
                     let this_line_tabbed = ln >= 1 && ln <= lines.len() && lines[ln - 1].bytes().take_while(|c| *c == b' ' || *c == b'\t' || *c == b'>').any(|c| c == b'\t');
                     if b.kind == "paragraph" && ln > b.sp.0 && this_line_tabbed && has_container_prefix(p, &chain, &lines, ln) == Some(true) {
                         return "tab-in-line-prefix:continuation-line-with-its-container-prefix".to_string();
+                    }
+                    let containers_all = chain.iter().filter(|&&i| is_container(p.nodes[i].kind) || p.nodes[i].kind == "multiline_block_quote").count();
+                    if kind == "code_block" && b.kind == "code_block" && containers_all == 0 {
+                        return "tab-in-line-prefix:top-level-code-block-itself".to_string();
                     }
                     if b.kind == "table" {
                         let pre = |l: &str| l.bytes().take_while(|c| *c == b' ' || *c == b'\t' || *c == b'>').collect::<Vec<u8>>();
